@@ -1,6 +1,6 @@
 import Indi.Properties.C05
 import Indi.Properties.C05b
-import Indi.Properties.Decisions
+import Indi.Properties.Dec.Router
 #print axioms Indi.Rtr.process_deliveries
 #print axioms Indi.Rtr.policy_refinement
 #print axioms Indi.Rtr.C05_clients
@@ -20,3 +20,5 @@ import Indi.Properties.Decisions
 #print axioms Indi.Rtr.traceR_deliveries_allowed
 #print axioms Indi.Decisions.routerDeliver_agrees
 #print axioms Indi.Decisions.routerIsBlob_agrees
+#print axioms Indi.Decisions.routerToClient_agrees
+#print axioms Indi.Decisions.router_process_from_source
